@@ -36,6 +36,11 @@ fn maps() -> Vec<Beatmap> {
         MapSpec { first_start: 400, ..MapSpec::new(2, vec![o(Kind::Circle, 0, PosK::Same, 0, 0), o(Kind::Circle, 300, PosK::Near, 0, 0), o(Kind::Circle, 200, PosK::Far, 0, 0), o(Kind::Slider2, 300, PosK::Near, 0, 0), o(Kind::Circle, 400, PosK::Same, 0, 0)]) }.decode(),
         // #6: native catch ending on a juice stream somewhere else
         MapSpec { first_start: 900, ..MapSpec::new(2, vec![o(Kind::Circle, 0, PosK::Far, 0, 0), o(Kind::Circle, 250, PosK::Far, 0, 0), o(Kind::SliderLong, 300, PosK::Far, 0, 0)]) }.decode(),
+        // #7 / #8: osu! maps whose conversion to mania sits in other regimes than #0's (the pattern generators branch on a
+        // "conversion difficulty" derived from HP / OD / AR and the object density): dense + hard, sparse + easy, both with
+        // plain and repeat sliders
+        MapSpec { diff: gen::DiffPreset::D2, ..MapSpec::new(0, (0..14).map(|i| o(if i % 3 == 1 { Kind::SliderLong } else if i % 3 == 2 { Kind::Slider5 } else { Kind::Circle }, 90, if i % 2 == 0 { PosK::Far } else { PosK::Near }, if i % 4 == 0 { 4 } else { 0 }, 0)).collect()) }.decode(),
+        MapSpec { diff: gen::DiffPreset::D1, ..MapSpec::new(0, vec![o(Kind::Slider2, 0, PosK::Far, 0, 0), o(Kind::Circle, 1500, PosK::Far, 0, 0), o(Kind::Slider5, 2500, PosK::Far, 8, 0), o(Kind::SliderLong, 3000, PosK::Far, 0, 0)]) }.decode(),
     ]
 }
 
@@ -122,7 +127,7 @@ impl World {
 fn jobs(len: usize) -> Vec<Vec<Step>> {
     let mut v: Vec<Vec<Step>> = Vec::new();
     // taiko with two different Random seeds, mania convert with Random and key mods, osu, plus gradual walks
-    let bases: Vec<(u8, u8, u8)> = vec![(0, 0, 0), (1, 1, 2), (1, 1, 3), (0, 3, 2), (0, 3, 4), (2, 3, 3), (0, 1, 1), (0, 2, 1), (5, 2, 5), (6, 2, 1)];
+    let bases: Vec<(u8, u8, u8)> = vec![(0, 0, 0), (1, 1, 2), (1, 1, 3), (0, 3, 2), (0, 3, 4), (2, 3, 3), (0, 1, 1), (0, 2, 1), (5, 2, 5), (6, 2, 1), (7, 3, 0), (8, 3, 0)];
     for &(map, dst, s) in &bases {
         let mut a = vec![Step::Difficulty { map, dst, s }, Step::Performance { map, dst, s }, Step::Strains { map, dst, s }];
         a.truncate(len);
@@ -157,6 +162,8 @@ fn guard_jobs() -> Vec<Vec<Step>> {
         vec![Step::Decode, Step::Decode],
         twice(Step::Difficulty { map: 5, dst: 2, s: 5 }),
         vec![Step::Difficulty { map: 6, dst: 2, s: 1 }, Step::Difficulty { map: 6, dst: 2, s: 5 }],
+        vec![Step::Convert { map: 7, dst: 3, s: 0 }, Step::Difficulty { map: 7, dst: 3, s: 0 }],
+        twice(Step::Difficulty { map: 8, dst: 3, s: 0 }),
     ]
 }
 
